@@ -103,20 +103,33 @@ def comp_of(f):
 
 
 def user_formatters(prog):
-    """functions that forward one of their parameters as the format of a v*printf call: name -> format index"""
+    """functions that forward one of their parameters as the format of a v*printf call: name -> format index.
+    A helper that itself takes a va_list (e.g. format_fragment( buf, size, fmt, args )) is one more v*printf: the relation is closed
+    under such helpers (least fixed point), and V_FMT is extended by them so that their callers' forwarding is recognised."""
     out = {}
-    for f in prog.all_functions():
-        for c in f.calls():
-            nm = c.get("fn") or ""
-            if nm in V_FMT:
-                args = call_args(c)
-                fi = V_FMT[nm]
-                if fi < len(args):
-                    a = strip(args[fi])
-                    if a is not None and a["k"] == "Ref" and a.get("dk") == "param":
-                        idx = [i for i, p in enumerate(f.params) if p["d"] == a.get("d")]
-                        if idx:
-                            out[f.name] = idx[0]
+    changed = True
+    while changed:
+        changed = False
+        for f in prog.all_functions():
+            for c in f.calls():
+                nm = c.get("fn") or ""
+                if nm in V_FMT:
+                    args = call_args(c)
+                    fi = V_FMT[nm]
+                    if fi < len(args):
+                        a = strip(args[fi])
+                        if a is not None and a["k"] == "Ref" and a.get("dk") == "param":
+                            idx = [i for i, p in enumerate(f.params) if p["d"] == a.get("d")]
+                            if idx and out.get(f.name) != idx[0]:
+                                out[f.name] = idx[0]
+                                changed = True
+                            takes_va = any("va_list" in (f.tyname(p["t"]) if isinstance(p.get("t"), int) else "") or
+                                           "__va_list_tag" in (f.tyname(p["t"]) if isinstance(p.get("t"), int) else "") for p in f.params)
+                            if idx and takes_va and f.name not in V_FMT:
+                                V_FMT[f.name] = idx[0]
+                                changed = True
+    for k in [k for k in out if k in V_FMT and k not in ("vfprintf", "vprintf", "vsprintf", "vsnprintf")]:
+        del out[k]          # a va_list helper is not called with a literal format by users; its callers are the formatters
     return out
 
 
